@@ -393,7 +393,7 @@ func (loader *Loader) resolveComponent(doc *T, ref string, path *url.URL, resolv
 
 			// Special case due to multijson
 			case *SchemaRef:
-				if pathPart == "additionalProperties" {
+				if pathPart == "additionalProperties" && c.Value != nil {
 					if ap := c.Value.AdditionalProperties.Has; ap != nil {
 						cursor = *ap
 					} else {
